@@ -43,3 +43,28 @@ static size_t shim_strerrorlen_s(long errnum, const char *msg) {
     shim_check_msg(errnum, msg);
     return strerrorlen_s((errno_t)errnum);
 }
+
+/* asctime_s / ctime_s: `text` is libc's rendering the model copies from; checked against asctime_r / ctime_r when the library's
+   own range checks would let the call get that far (tm->tm_year within 0..8099 etc. is the library's business, not the shim's:
+   the comparison is only made when libc itself accepts the value). */
+extern errno_t _asctime_s_chk(char *dest, rsize_t dmax, const struct tm *tm, const size_t destbos);
+extern errno_t _ctime_s_chk(char *dest, rsize_t dmax, const time_t *timer, const size_t destbos);
+static errno_t shim_asctime_s(char *dest, rsize_t dmax, const struct tm *tm, size_t destbos, const char *text, long check) {
+    if (check && tm && text) {
+        char tmp[128];
+        const char *r = asctime_r(tm, tmp);
+        if (!r || strcmp(r, text) != 0) shim_die("asctime text differs from libc's");
+    }
+    return _asctime_s_chk(dest, dmax, tm, destbos);
+}
+static errno_t shim_ctime_s(char *dest, rsize_t dmax, const time_t *timer, size_t destbos, const char *text, long check) {
+    if (check && timer) {   /* text == NULL: libc is expected to return NULL */
+        char tmp[128];
+        const char *r = ctime_r(timer, tmp);
+        if ((r == NULL) != (text == NULL) || (r && strcmp(r, text) != 0)) {
+            fprintf(stderr, "timer=%ld libc=[%s] given=[%s]\n", (long)*timer, r ? r : "(null)", text ? text : "(null)");
+            shim_die("ctime text differs from libc's");
+        }
+    }
+    return _ctime_s_chk(dest, dmax, timer, destbos);
+}
